@@ -2385,7 +2385,7 @@ char* dump_trace (int how) {
           log_message (NULL, "\t" YEL "%s()" NOR " at " CYN "%s" NOR ", in program /%s (object %s)\n", ftd.name,
                        get_line_number (p[1].pc, p[1].prog), p[1].prog->name, p[1].ob->name);
           if (strcmp (ftd.name, "heart_beat") == 0)
-            ret = p->ob ? p->ob->name : 0;
+            ret = p[1].ob ? p[1].ob->name : 0; /* p[1] holds the registers of the frame p opens (p->ob is the caller's object) */
           break;
         case FRAME_FUNP:
           log_message (NULL, "\t" YEL "(function)" NOR " at " CYN "%s" NOR ", in program /%s (object %s)\n",
